@@ -689,6 +689,6 @@ pub fn generate(prop: &str, seed: u64, idx: u64, tier: Tier) -> Plan {
 pub fn budget(_prop: &str, tier: Tier) -> u64 {
     match tier {
         Tier::Quick => (N_PHASES * N_EVENTS * 2) as u64 + 6000,
-        Tier::Thorough => (N_PHASES * N_EVENTS * 2) as u64 + 300_000,
+        Tier::Thorough => (N_PHASES * N_EVENTS * 2) as u64 + 100_000,
     }
 }
